@@ -1,3 +1,4 @@
+pub mod c01;
 pub mod c03;
 pub mod c04;
 pub mod c04_l2;
@@ -6,8 +7,13 @@ pub mod c06;
 pub mod c06_l2;
 pub mod c07;
 pub mod c07_l2;
+pub mod c08;
 pub mod c12;
 pub mod c12_l2;
+pub mod c13;
+pub mod c14;
+pub mod c15;
+pub mod c16;
 pub mod c17;
 pub mod c17_l2;
 pub mod c18;
@@ -18,12 +24,18 @@ use crate::engine::Run;
 
 pub fn dispatch(run: &mut Run) -> bool {
   match run.id.as_str() {
+    "C01" => c01::run(run),
     "C03" => c03::run(run),
     "C04" => c04::run(run),
     "C05" => c05::run(run),
     "C06" => c06::run(run),
     "C07" => c07::run(run),
+    "C08" => c08::run(run),
     "C12" => c12::run(run),
+    "C13" => c13::run(run),
+    "C14" => c14::run(run),
+    "C15" => c15::run(run),
+    "C16" => c16::run(run),
     "C17" => c17::run(run),
     "C18" => c18::run(run),
     "C19" => c19::run(run),
